@@ -284,6 +284,8 @@ def check_history(case):
             labels.add("domain=example.com")
         if "." not in fqdn:
             labels.add("no-domain")
+        if case.get("renamed"):
+            labels.add("excluded:unsafe-short-name-renamed")
         labels.add("steps=%s" % ("1" if len(case["ops"]) == 1 else "2-5" if len(case["ops"]) <= 5 else "6+"))
         return {"nontrivial": bool(recurs and shared_line), "labels": sorted(labels)}
     finally:
@@ -339,7 +341,7 @@ def _check_report(cleaner, facts_file, fqdn, seen, occurred, canon, step):
                     step=step, mapping=listed)
         for orig, subs in sorted(by_orig.items()):
             # no listed original that never occurred (other than the system's own name)
-            if orig not in occurred[cls] and not (cls == "host" and orig == fqdn):
+            if orig not in occurred[cls] and not (cls == "host" and orig in (fqdn, fqdn.split(".")[0])):
                 raise Violation("report: the %s mapping lists original %r which occurred in no input"
                                 % (cls, orig), step=step, mapping=listed)
             # a listed original that was observed is listed with what the output shows for it
@@ -358,7 +360,7 @@ _label = st.one_of(
     st.builds(lambda a, b: a + b, st.sampled_from(_LETTERS + "_"),
               st.text(_LETTERS + "0123456789-_", min_size=0, max_size=4)),
 )
-_DOMAINS = ["corp.acme.org", "example.com", "lab.local", "d.io", "a-b.example.net", "x.y.z.int", "acme.org",
+_DOMAINS = ["corp.acme.org", "example.com", "example.com", "lab.local", "d.io", "a-b.example.net", "x.y.z.int", "acme.org",
             "db.lan"]
 _octet = st.one_of(st.integers(0, 255), st.sampled_from([0, 1, 2, 10, 11, 12, 100, 110, 230, 255]))
 _hexpair = st.text("0123456789abcdef", min_size=2, max_size=2)
@@ -378,13 +380,15 @@ def _pools(draw):
     short = draw(_label)
     nodomain = draw(st.integers(0, 14)) == 0
     domain = None if nodomain else draw(st.sampled_from(_DOMAINS))
-    if unsafe_short(short):
+    renamed = unsafe_short(short)
+    if renamed:
         short += "z"       # 'z' occurs in nothing an obfuscator emits
     fqdn = short if nodomain else short + "." + domain
     hosts = [fqdn] if nodomain else [short, fqdn]
     if not nodomain:
         for _ in range(draw(st.integers(1, 6))):
-            how = draw(st.sampled_from(["fresh", "fresh", "prefix", "suffix", "sub", "super", "issued"]))
+            how = draw(st.sampled_from(["fresh", "fresh", "prefix", "suffix", "sub", "super", "issued"] + (
+                ["issued", "issued"] if domain == "example.com" else [])))
             base = hosts[draw(st.integers(0, len(hosts) - 1))]
             blabel = base[:-(len(domain) + 1)] if base.endswith("." + domain) else base
             if how == "prefix":
@@ -446,7 +450,7 @@ def _pools(draw):
         macs.append(mac)
     kws = draw(st.one_of(st.just([]), st.lists(st.text("QRSTUVWXYZ", min_size=4, max_size=4),
                                                 min_size=1, max_size=3, unique=True)))
-    return {"fqdn": fqdn, "pools": {"ip": ips, "host": hosts, "mac": macs, "kw": kws}}
+    return {"fqdn": fqdn, "renamed": renamed, "pools": {"ip": ips, "host": hosts, "mac": macs, "kw": kws}}
 
 
 @st.composite
@@ -466,7 +470,7 @@ def _history(draw, max_ops):
     classes = st.one_of(st.sampled_from(weights), st.sampled_from(weights), st.just("ip"), st.just("host"),
                         st.just("mac"))
     ops = []
-    for _ in range(draw(st.integers(1, max_ops))):
+    for _ in range(draw(st.one_of(st.integers(1, max_ops), st.integers(4, max_ops)))):
         kind = draw(st.sampled_from(["list", "list", "str", "file"]))
         nlines = 1 if kind == "str" else draw(st.integers(1, 4))
         no_obf = draw(st.one_of(st.just([]), st.just([]), st.just([]), st.just([]), st.lists(
